@@ -21,7 +21,6 @@ REPO = os.environ.get("VERIF_REPO", "/repo")
 CACHE = os.path.join(VERIF, ".cache")
 COQ = os.path.join(VERIF, "coq")
 TARGET = os.path.join(CACHE, "target")
-HARNESS_BIN = os.path.join(TARGET, "debug", "vrl-verif-harness")
 NPROC = min(16, os.cpu_count() or 4)
 
 os.makedirs(CACHE, exist_ok=True)
@@ -35,15 +34,15 @@ def log(*a):
 # building
 # --------------------------------------------------------------------------------------------
 
-def build_harness():
-    """cargo build of the harness against /repo's current working tree (incremental)."""
+def build_harness(fam):
+    """cargo build of one harness family binary against /repo's current working tree (incremental)."""
     env = dict(os.environ, CARGO_TARGET_DIR=TARGET, CARGO_NET_OFFLINE="true")
     t0 = time.time()
     # serialise concurrent checks on one lock so that cargo's own lock does not time anything out
     import fcntl
     with open(os.path.join(CACHE, "cargo.lock.flock"), "w") as lk:
         fcntl.flock(lk, fcntl.LOCK_EX)
-        p = subprocess.run(["cargo", "build", "--offline", "--quiet"], cwd=os.path.join(VERIF, "harness"),
+        p = subprocess.run(["cargo", "build", "--offline", "--quiet", "--bin", fam], cwd=os.path.join(VERIF, "harness"),
                            env=env, stdout=subprocess.PIPE, stderr=subprocess.STDOUT, text=True)
     if p.returncode != 0:
         log(p.stdout[-6000:])
@@ -69,7 +68,7 @@ def build_coq(targets=None):
 # --------------------------------------------------------------------------------------------
 
 def _run_chunk(fam, lines, timeout):
-    p = subprocess.run([HARNESS_BIN, fam], input="\n".join(lines) + "\n", stdout=subprocess.PIPE,
+    p = subprocess.run([os.path.join(TARGET, "debug", fam)], input="\n".join(lines) + "\n", stdout=subprocess.PIPE,
                        stderr=subprocess.PIPE, text=True, timeout=timeout)
     out = [l for l in p.stdout.split("\n") if l.strip()]
     res = []
@@ -414,11 +413,12 @@ def pin_statements(prop, theorems):
 # --------------------------------------------------------------------------------------------
 
 def known_findings(prop):
-    path = os.path.join(VERIF, "known_findings.json")
+    """known_findings/<prop>.json: {"findings": [{"id", "status": "known"|"fixed", "what", "match": {...}}]}.
+    Only status == "known" entries suppress anything; "fixed" entries are documentation."""
+    path = os.path.join(VERIF, "known_findings", "%s.json" % prop)
     if not os.path.exists(path):
         return []
-    return [e for e in json.load(open(path)).get("findings", []) if e.get("property") == prop
-            and e.get("status", "known") == "known"]
+    return [e for e in json.load(open(path)).get("findings", []) if e.get("status", "known") == "known"]
 
 
 def write_replay(prop, obj):
